@@ -22,7 +22,7 @@ def run(rep):
         from .. import apalache
         apalache.shape_lemmas(rep)
     fnd = Findings()
-    c = dict(SizeSet=models.rng(2, 64 if rep.tier == "quick" else 200), CSet={1, 2, 3, 4, 5}, ExtFix=models.FIX.get("ExtFix", False))
+    c = dict(SizeSet=models.rng(2, 64 if rep.tier == "quick" else 200), CSet={1, 2, 3, 4, 5, 17, 40, 147}, ExtFix=models.FIX.get("ExtFix", False))
     res = tlc.run_model("Scat", c, invariants=["StSize1", "StSize2", "StShortExact", "StChan1", "StChan2", "Bands2Cover"],
                         shards=1, workers=4, tag="Scat", coverage=False)
     rep.add_tlc(res, "Scat")
